@@ -144,6 +144,24 @@ def r1_permutation(ctx, rep, R='C11.R1'):
         t = st.targets[0]
         oks = norm(t.slice) == key and isinstance(st.value, ast.Call) and len(st.value.args) == 1 \
             and is_name(st.value.args[0], L) and not st.value.keywords
+    if oks:
+        # ... and it is THIS iteration's list: within one pass of the layer loop every path to the
+        # store goes through ``L = list(suite)`` (a list left over from the previous layer must not
+        # be stored under this layer's key)
+        g = ctx.cfg(fi)
+        head = [n.id for n in g.nodes if n.kind == 'for' and n.stmt is lp]
+        dn = [n.id for n in g.nodes if n.kind == 'stmt' and n.ast is Ldef]
+        sn = [n.id for n in g.nodes if n.kind == 'stmt' and n.ast is stores[0]]
+        fresh = bool(head) and bool(dn) and bool(sn)
+        if fresh:
+            body = [d for d, k in g.succ[head[0]] if k == 'true']
+            r = g.reach(body, avoid=set(dn) | set(head), include_start=True)
+            fresh = not any(x in r for x in sn)
+        rep.check(fresh, R, 'the list stored for a layer is the one made from that layer\'s suite in '
+                  'the same iteration', 'a pass of the layer loop can reach the store without '
+                  '%s = list(%s): the list of the previous layer would be stored under this layer\'s '
+                  'key (tests dropped here, duplicated from there)' % (L, suite), key='store-fresh',
+                  func=fi.qualname, where=ctx.where(fi, stores[0]))
     rep.check(oks, R, 'stored back under the same key, built from the whole working list',
               'the shuffled list is not stored back as tests_by_layer_name[%s] = <suite>(%s)' % (key, L),
               key='store-back', func=fi.qualname, where=ctx.where(fi, lp))
